@@ -1024,6 +1024,14 @@ func c13PFromTest(c *Ctx, p *Prog) {
 						if ex, isEx := bo.X.(*ssa.Extract); isEx && ex.Tuple == ssa.Value(test) {
 							onErr = true
 						}
+						// the test's error merged with a further reason to give up
+						if ph, isPhi := bo.X.(*ssa.Phi); isPhi {
+							for _, e := range ph.Edges {
+								if ex, isEx := e.(*ssa.Extract); isEx && ex.Tuple == ssa.Value(test) {
+									onErr = true
+								}
+							}
+						}
 					}
 				}
 				ok = one && onErr
